@@ -6,6 +6,43 @@ import world_check as wk
 import world_common as wc
 
 
+def gen_project_quiet_case(rng):
+    """a file of a project is saved, then - inside the quiet period - a file deeper in the same project; a pass runs
+    when the first save is old enough but the second is not: no snapshot yet; a later pass takes it"""
+    s = wc.Script()
+    deb = rng.choice([3, 5, 8])
+    wc.setup_world(s, wc.base_cfg(deb=deb))
+    s.start()
+    s.exec(3, wc.X + "/vim")
+    W = wc.WATCH
+    root = rng.choice([W + "/proj", W + "/pp/p1", W + "/pp/p2"])
+    shallow = rng.choice(["main.c", "README"])
+    deep = rng.choice(["lib/util.c", "src/deep/x/y.h", "a/b.c"])
+    first, second = rng.sample([shallow, deep], 2)
+    s.put(root + "/" + first, "one")
+    s.write(3, root + "/" + first)
+    gap = rng.randint(1, deb - 1)
+    s.tick(gap)
+    s.put(root + "/" + second, "two")
+    s.write(3, root + "/" + second)
+    s.tick(deb - gap)          # the first save is exactly `deb` old, the second is not
+    s.dump()
+    s.timeout()
+    s.dump()
+    if rng.random() < 0.5:
+        s.tick(gap - 1)        # one second before the project is quiet (or no step at all)
+        s.dump()
+        s.timeout()
+        s.dump()
+        s.tick(1)
+    else:
+        s.tick(gap)
+    s.dump()
+    s.timeout()
+    s.dump()
+    return s.text()
+
+
 def world_phase(rep, exe_impl, exe_model):
     """handler level: the interval is changed by rewriting the configuration file while items are pending"""
     rng = random.Random(rep.seed + 1)
@@ -14,11 +51,17 @@ def world_phase(rep, exe_impl, exe_model):
     for i in range(n):
         t, m = wc.gen_debounce_case(rng)
         cases.append(("d%d" % i, t, m))
-    f, v = wk.run_cases(rep, exe_impl, exe_model, cases, ["bursts", "queue_form", "fault_reported", "no_error"])
+    # projects: the quiet period of a project restarts with a write to any of its files, at any depth
+    for i in range(12 if rep.tier == "quick" else 200):
+        cases.append(("pq%d" % i, gen_project_quiet_case(rng), {}))
+    for i in range(40 if rep.tier == "quick" else 800):
+        t, m = wc.gen_project_case(rng)
+        cases.append(("pj%d" % i, t, m))
+    f, v = wk.run_cases(rep, exe_impl, exe_model, cases, ["bursts", "project_quiet", "queue_form", "fault_reported", "no_error"])
     rep.cov["evaluations"] = rep.cov.get("evaluations", 0) + len(cases)
     rep.cov["traces_validated_against_impl"] = rep.cov.get("traces_validated_against_impl", 0) + v
     rep.cov["rule"] = rep.cov.get("rule", "") + ("; handler level: histories of writes, clock steps and passes in which the watched configuration file is rewritten "
-                                                 "with another debounce_seconds (same queue) while items are pending; every pass is judged with the interval in force")
+                                                 "with another debounce_seconds (same queue) while items are pending; every pass is judged with the interval in force; projects: a save in a project followed inside the quiet period by a save deeper in the same project (configured roots and children of a project parent), passes at the first save's due time, one second before the project is quiet and when it is - a snapshot appears only when the latest accepted write below the project's root is old enough (judged from the write events, not from the queue)")
     return f
 
 
@@ -30,5 +73,5 @@ def replay(rep, path):
     import json
     d = json.load(open(path))
     if any(l.startswith("cfg ") for l in d.get("script", [])):
-        return wk.replay_world(rep, path, ["bursts"])
+        return wk.replay_world(rep, path, ["bursts", "project_quiet"])
     return check_C14.replay(rep, path, pid="C01")
